@@ -66,6 +66,21 @@ def setup(start, with_key=True):
     return c, p, log
 
 
+def reference_value(fmt, raw):
+    """independent reading of the sealed 8-byte field per HAP format (None = no claim)"""
+    b = raw.ljust(8, b"\0")
+    if fmt == "bool":
+        return f"b:{str(b[0] != 0).lower()}"
+    if fmt in ("uint8", "uint16", "uint32", "uint64"):
+        n = {"uint8": 1, "uint16": 2, "uint32": 4, "uint64": 8}[fmt]
+        return f"n:{int.from_bytes(b[:n], 'little')}"
+    if fmt == "int":
+        return f"n:{int.from_bytes(b[:4], 'little', signed=True)}"
+    if fmt == "float":
+        return "f:" + hx(b[:4])
+    return None
+
+
 def canon_value(fmt, v):
     if fmt == "bool":
         return f"b:{str(bool(v)).lower()}"
@@ -125,12 +140,23 @@ def run(ctx: Ctx, driver: Driver):
                 ok = h[0] == "G" and before < h[1] < before + 100 and ((h[2] if h[2] is not None else h[1]) & 0xFFFF) == h[1] and key == (1, h[3]) and after == h[1]
                 if not ok:
                     ctx.violation("notify/accepted", f"start={start}: advertisement {h[:4]} was delivered (state {before}->{after}, key {key})", {"stream": "notify", "start": start, "hist": [list(map(str, x)) for x in hist]})
-                # value decoding
+                # value decoding: what listeners get is the value the accessory sealed, read with the characteristic's own width
                 fmt = fmt_of[h[3]]
+                want_v = reference_value(fmt, h[4])
+                if want_v is not None and canon_value(fmt, val["value"]) != want_v:
+                    ctx.violation("notify/wrong-value", f"format {fmt}: accessory sealed value bytes {hx(h[4])} (= {want_v}), listeners got {canon_value(fmt, val['value'])}", {"stream": "value", "fmt": fmt, "value": hx(h[4])})
                 vcases.append({"stream": "value", "fmt": fmt, "value": hx(h[4])})
                 vouts.append(canon_value(fmt, val["value"]))
                 vlines.append(f"bc.val {fmt if fmt != 'data' else 'other'} {hx(h[4].ljust(8, bytes(1)))}")
             else:
+                silent_ok = (h[0] == "G" and h[3] >= 900 and before < h[1] < before + 100 and ((h[2] if h[2] is not None else h[1]) & 0xFFFF) == h[1])
+                if silent_ok:
+                    # authentic and fresh, but for an instance id the cached database does not know: the state number must advance
+                    # (otherwise an older genuine notification stays acceptable), nobody is called
+                    if after != h[1]:
+                        ctx.violation("notify/unknown-iid-not-accepted", f"start={start}: authentic fresh advertisement {h[:4]} for an unknown instance id left the state number at {after} - older notifications stay acceptable", {"stream": "notify", "start": start, "hist": [list(map(str, x)) for x in hist]})
+                    out.append("q")
+                    continue
                 if after != before:
                     ctx.violation("notify/state-changed", f"start={start}: rejected advertisement {h[:4]} changed the state number {before}->{after}", {"stream": "notify", "start": start, "hist": [list(map(str, x)) for x in hist]})
                 if h[0] == "O":
@@ -198,6 +224,11 @@ def run(ctx: Ctx, driver: Driver):
         for old_g in (1, 2, 3, 50, 63, 64, 99, 100, 129):
             history(start, [("G", min(start + 1, 65535), None, iid0, b"\x01"), ("G", old_g, None, iid0, b"\x02"), ("G", old_g, None, iid0, b"\x02")])
             ctx.nontrivial.add((start, "ancient", old_g))
+    # an authentic notification for an unknown instance id must still advance the state: an older genuine one is then stale
+    for start in (10, 65400):
+        for k in (2, 5, 50):
+            history(start, [("G", start + k, None, 999, b"\x01"), ("G", start + 1, None, iid0, b"\x07"), ("G", start + k, None, 999, b"\x01"), ("G", start + k + 1, None, iid0, b"\x09")])
+            ctx.nontrivial.add((start, "unknown-iid", k))
     # replays of accepted notifications after arbitrary other traffic, bit flips, short payloads, all formats/values
     for _ in range(ctx.budget(60, 3000)):
         start = rng.choice([0, 1, 7, 100, 65000, 65530, 65535, 70000])
@@ -211,6 +242,10 @@ def run(ctx: Ctx, driver: Driver):
             value = rng.choice([b"\x00", b"\x01", b"\xff", b"\xff\xff", b"\x00\x01", bytes(8), b"\xff" * 8, bytes(rng.randrange(256) for _ in range(rng.randrange(1, 9))), b"abc", b"\x00\x00\x80\x3f"])
             if fmt == "string":
                 value = rng.choice([b"abc", b"", b"on"])
+            if rng.random() < 0.12:
+                iid = rng.choice([999, 950])   # authentic, but not in the cached accessory database
+            if fmt == "int" and rng.random() < 0.5:
+                value = struct.pack("<i", rng.choice([-1, -2, -128, -2 ** 31, -rng.randrange(1, 2 ** 31)]))
             if r < 0.35:
                 k = rng.choice([1, 1, 1, 2, 5, 50, 99])
                 g = cur + k
